@@ -5,15 +5,22 @@ import Holpy.C12.Exec
 import Holpy.C12.Exec2
 import Holpy.C12.Reread
 import Holpy.C12.Complete
+import Holpy.C12.Edits
+import Holpy.C12.Hist
+import Holpy.C12.Users
 /-
-C12 — property theorems (statements live here, helper lemmas in Proofs / Exec / Exec2).
+C12 — property theorems (statements live here, helper lemmas in Proofs / Exec / Exec2 / Complete / Reread / Edits / Hist).
 
-Model = `logic/basic.py` with the fixes C12-1..4.  Every theorem is for an arbitrary world (parser,
-lazy-import table, module bodies), an arbitrary library, arbitrary timestamps and arbitrary fuel.
-Histories: `Op.load` (with or without an injected fault), `Op.imp` (import of a Python module that
-may call load_theory), `Op.touch` (os.utime, forwards or backwards), `Op.reloadMeta`.  `Op.edit`
-(new file contents) is excluded from the theorems (see `stale_imports_counterexample`); edits that keep the
-imports are covered by the subprocess oracle and the model correspondence.
+Model = `logic/basic.py` with the fixes C12-1..4.  Every theorem is for an arbitrary world (parser, extension
+clashes, lazy-import table, module bodies), an arbitrary library, arbitrary timestamps and arbitrary fuel.
+Histories (`Op`): `load` (any limit, with or without an injected fault), `imp` (import of a Python module that may
+call load_theory), `touch` (os.utime), `edit` (the file is replaced: new imports, new items, new timestamp),
+`reloadMeta` (basic.load_metadata()).  The hypothesis `OkHistory` excludes exactly two things:
+* a `touch`/`edit` that gives a file a timestamp it already had earlier in the process ("a changed file gets a
+  different timestamp" is what a timestamp cache relies on; OLDER timestamps are fine as long as they are new);
+* a load between an edit that changes the `imports` of a file and the next `load_metadata`
+  (the known finding, `stale_imports_counterexample`).
+What `theory.thy` holds after a load that raised is not specified by any theorem.
 -/
 namespace Holpy.C12
 
@@ -33,64 +40,116 @@ def exFiles : Name → File := fun n =>
   else { imports := [], items := [], mtime := 0 }
 
 def exHistory : List Op :=
-  [.load 3 .none (some 20), .touch 1 9, .imp 7, .reloadMeta, .load 2 (.item 21) none, .touch 2 3]
+  [.load 3 .none (some 20), .touch 1 9, .imp 7, .reloadMeta, .load 2 (.item 21) none, .touch 2 3,
+   .edit 1 [] [11, 10] 2, .load 3 .start none, .edit 3 [1] [30] 8, .reloadMeta]
 
-/-- `load_theory(name, limit)` that returns normally after ANY history of loads, interrupted loads, module
-    imports, touches and metadata reloads leaves in `theory.thy` exactly the specified items: the ok items
-    of the transitive imports in `get_import_order` order, then the own ok items before the limit, each
-    parsed in the context the specification gives (`specLoad`; `k` is the specification's fuel).
-    PARTIAL with respect to the full statement `result of load = specLoad`: (1) the direction "the
-    specification succeeds ⇒ load_theory does not raise" is not proved (it is what the reference-loader
-    oracle of the harness checks on the implementation); (2) histories containing `Op.edit` (new file
-    contents) are not covered. -/
-theorem load_eq_spec_partial (W : World) (names : List Name) (files : Name → File) (h : List Op)
-    (hh : ∀ o ∈ h, o.keepsContent) (fuel : Nat) (n : Name) (lim : Limit) :
-    let L := (initState names files).lib
-    let r := exec W none fuel (.load n lim) (run W fuel h (initState names files))
-    r.1 = none → ∀ k, specLoad W L k n lim ≠ .error .fuel → specLoad W L k n lim = .ok (r.2.thy.getD []) := by
-  intro L r hr k hk
-  have hi := run_inv W L fuel h _ hh (init_inv W names files)
-  exact (exec_post W L none fuel (.load n lim) _ hi).2.2 rfl hr k hk
+/-- the hypothesis of the theorems about histories (see the header; `okHist` in Hist.lean) -/
+def OkHistory (W : World) (fuel : Nat) (names : List Name) (files : Name → File) (h : List Op) : Prop :=
+  okHist W fuel h (initState names files) (used0 files) false
+
+/-- the example history (interrupted load, touches, an edit with an older timestamp, an edit that changes the imports
+    followed by load_metadata) satisfies the hypothesis -/
+example : OkHistory exWorld 50 [1, 2, 3] exFiles exHistory := by
+  unfold OkHistory exHistory
+  simp only [okHist]
+  decide
+
+/-- SOUNDNESS FOR ANY LIBRARY (also unhealthy ones): a `load_theory(name, limit)` that returns normally after any
+    history of loads, interrupted loads, module imports, touches, EDITS and metadata reloads leaves in `theory.thy`
+    exactly what the specification computes from the CURRENT files: the ok items of the transitive imports in
+    `get_import_order` order, then the own ok items before the limit (`specLoad`; `k` is the specification's fuel). -/
+theorem load_returns_spec (W : World) (names : List Name) (files : Name → File) (h : List Op) (fuel : Nat)
+    (hh : OkHistory W fuel names files h) (n : Name) (lim : Limit) :
+    let s := run W fuel h (initState names files)
+    let r := exec W none fuel (.load n lim) s
+    r.1 = none → ∀ k, specLoad W s.lib k n lim ≠ .error .fuel → specLoad W s.lib k n lim = .ok (r.2.thy.getD []) := by
+  intro s r hr k hk
+  obtain ⟨U, hi⟩ := hist_inv W names files fuel h hh
+  exact (exec_post W s.lib U none fuel (.load n lim) _ hi).2.2 rfl hr k hk
 
 example :
-    (exec exWorld none 50 (.load 3 .none) (run exWorld 50 exHistory (initState [1, 2, 3] exFiles))).1 = none
-    ∧ (exec exWorld none 50 (.load 3 .none) (run exWorld 50 exHistory (initState [1, 2, 3] exFiles))).2.thy
-        = some [10, 11, 20, 21]
-    ∧ specLoad exWorld (initState [1, 2, 3] exFiles).lib 5 3 .none = .ok [10, 11, 20, 21] :=
+    let s := run exWorld 50 exHistory (initState [1, 2, 3] exFiles)
+    (exec exWorld none 50 (.load 3 .none) s).1 = none
+    ∧ (exec exWorld none 50 (.load 3 .none) s).2.thy = some [11, 10]
+    ∧ specLoad exWorld s.lib 5 3 .none = .ok [11, 10] :=
   ⟨by decide, by decide, by rfl⟩
 
-/-- FULL statement for a healthy library (no item makes the parser raise, no two items clash when their extensions are combined, the import graph passes the cycle
-    check, import orders exist, modules only load theories of the library), every theory `n` of the library
-    and every limit: after ANY content-preserving history, the outcome of `load_theory(n, limit)` IS the
-    specification — it returns normally exactly when the specification does, `theory.thy` is then the
-    specified item list, and the only error is "limit not found", raised exactly when the specification
-    says so.  (`some .fuel`: the model ran out of fuel; Python has no counterpart.)  In particular a load
-    never fails because of what happened before (the fresh-process `load_theory('smt')` defect). -/
-theorem load_eq_spec (W : World) (names : List Name) (files : Name → File) (h : List Op)
-    (hh : ∀ o ∈ h, o.keepsContent) (fuel : Nat) (n : Name) (lim : Limit)
-    (hH : Healthy W (initState names files).lib) (hn : n ∈ names) :
-    let L := (initState names files).lib
-    let r := exec W none fuel (.load n lim) (run W fuel h (initState names files))
-    r.1 = some .fuel ∨ ∀ k, specLoad W L k n lim ≠ .error .fuel →
-      specLoad W L k n lim = (match r.1 with | none => .ok (r.2.thy.getD []) | some e => .error e) := by
-  intro L r
-  have hi : Inv W L (run W fuel h (initState names files)) := run_inv W L fuel h _ hh (init_inv W names files)
+/-- FULL statement.  After ANY history of loads (any limit, with or without injected faults), module imports,
+    touches, EDITS and metadata reloads that satisfies `OkHistory`, for every theory `n` of a library that is healthy
+    NOW (no item makes the parser raise, no two items clash when their extensions are combined, the import graph
+    passes the cycle check, import orders exist, modules only load theories of the library) and every limit: the
+    outcome of `load_theory(n, limit)` IS the specification evaluated on the CURRENT files — it returns normally
+    exactly when the specification does, `theory.thy` is then the specified item list, and the only error is
+    "limit not found", raised exactly when the specification says so.  (`some .fuel`: the model ran out of fuel;
+    Python has no counterpart.) -/
+theorem load_eq_spec (W : World) (names : List Name) (files : Name → File) (h : List Op) (fuel : Nat)
+    (hh : OkHistory W fuel names files h) (n : Name) (lim : Limit) :
+    let s := run W fuel h (initState names files)
+    let r := exec W none fuel (.load n lim) s
+    Healthy W s.lib → n ∈ s.names →
+    r.1 = some .fuel ∨ ∀ k, specLoad W s.lib k n lim ≠ .error .fuel →
+      specLoad W s.lib k n lim = (match r.1 with | none => .ok (r.2.thy.getD []) | some e => .error e) := by
+  intro s r hH hn
+  obtain ⟨U, hi⟩ := hist_inv W names files fuel h hh
   cases fuel with
   | zero => exact Or.inl rfl
   | succ f =>
-    have hok := exec_ok W L hH (f + 1) (.load n lim) _ hi hn
+    have hok := exec_ok W s.lib U hH (f + 1) (.load n lim) _ hi hn
     rcases hok with (h0 | h0) | ⟨h0, _⟩
     · refine Or.inr fun k hk => ?_
-      have := load_eq_spec_partial W names files h hh (f + 1) n lim h0 k hk
-      show specLoad W L k n lim = (match r.1 with | none => .ok (r.2.thy.getD []) | some e => .error e)
+      have := load_returns_spec W names files h (f + 1) hh n lim h0 k hk
+      show specLoad W s.lib k n lim = (match r.1 with | none => .ok (r.2.thy.getD []) | some e => .error e)
       rw [show r.1 = none from h0]
       exact this
     · exact Or.inl h0
     · refine Or.inr fun k hk => ?_
-      have := loadBody_limit W L hH (exec_post W L none f) (exec_ok W L hH f) n lim hn hi h0 k hk
-      show specLoad W L k n lim = (match r.1 with | none => .ok (r.2.thy.getD []) | some e => .error e)
+      have := loadBody_limit W s.lib U hH (exec_post W s.lib U none f) (exec_ok W s.lib U hH f) n lim hn hi h0 k hk
+      show specLoad W s.lib k n lim = (match r.1 with | none => .ok (r.2.thy.getD []) | some e => .error e)
       rw [show r.1 = some .limit from h0]
       exact this
+
+/-- … which is what a FRESH PROCESS computes on the same files: a process that has done anything allowed by
+    `OkHistory` and a process that has just started on the current files agree on every load (when neither runs out
+    of model fuel and the specification is evaluated with enough fuel `k`). -/
+theorem load_eq_fresh_process (W : World) (names : List Name) (files : Name → File) (h : List Op) (fuel : Nat)
+    (hh : OkHistory W fuel names files h) (n : Name) (lim : Limit) (k : Nat) :
+    let s := run W fuel h (initState names files)
+    let r := exec W none fuel (.load n lim) s
+    let r0 := exec W none fuel (.load n lim) (initState s.names s.files)
+    Healthy W s.lib → n ∈ s.names → specLoad W s.lib k n lim ≠ .error .fuel →
+    r.1 ≠ some .fuel → r0.1 ≠ some .fuel →
+    r.1 = r0.1 ∧ (r.1 = none → r.2.thy.getD [] = r0.2.thy.getD []) := by
+  intro s r r0 hH hn hk hr hr0
+  have h1 := load_eq_spec W names files h fuel hh n lim hH hn
+  have hfresh : OkHistory W fuel s.names s.files [] := rfl
+  have hlib : (run W fuel [] (initState s.names s.files)).lib = s.lib := rfl
+  have h2 := load_eq_spec W s.names s.files [] fuel hfresh n lim (by rw [hlib]; exact hH) hn
+  rcases h1 with h1 | h1
+  · exact absurd h1 hr
+  rcases h2 with h2 | h2
+  · exact absurd h2 hr0
+  have e1 := h1 k hk
+  have e2 := h2 k (by rw [hlib]; exact hk)
+  rw [hlib] at e2
+  rw [e1] at e2
+  change (match r.1 with | none => Except.ok (r.2.thy.getD []) | some e => Except.error e)
+    = (match r0.1 with | none => Except.ok (r0.2.thy.getD []) | some e => Except.error e) at e2
+  cases hr1 : r.1 with
+  | none =>
+    cases hr2 : r0.1 with
+    | none =>
+      rw [hr1, hr2] at e2
+      exact ⟨rfl, fun _ => Except.ok.inj e2⟩
+    | some e => rw [hr1, hr2] at e2; cases e2
+  | some e =>
+    cases hr2 : r0.1 with
+    | none => rw [hr1, hr2] at e2; cases e2
+    | some e' => rw [hr1, hr2] at e2; cases e2; exact ⟨rfl, fun h => by cases h⟩
+
+example :
+    let s := run exWorld 50 exHistory (initState [1, 2, 3] exFiles)
+    (exec exWorld none 50 (.load 3 (.item 30)) s).2.thy = (exec exWorld none 50 (.load 3 (.item 30)) (initState s.names s.files)).2.thy
+    ∧ (exec exWorld none 50 (.load 3 (.item 30)) s).2.thy = some [11, 10] := by decide
 
 /-- the example library is healthy -/
 example : Healthy exWorld (initState [1, 2, 3] exFiles).lib where
@@ -114,22 +173,53 @@ example : Healthy exWorld (initState [1, 2, 3] exFiles).lib where
     · simp at hm; subst hm; decide
     · simp at hm
 
-/-- The same holds in the middle of anything: the invariant "every stamped cache entry holds exactly the
-    specified parse of its file" survives every step of every history, including steps that raise. -/
-theorem cache_invariant (W : World) (names : List Name) (files : Name → File) (h : List Op)
-    (hh : ∀ o ∈ h, o.keepsContent) (fuel : Nat) :
-    Inv W (initState names files).lib (run W fuel h (initState names files)) :=
-  run_inv W _ fuel h _ hh (init_inv W names files)
+/-- The invariant behind it: after every step of every allowed history — including steps that raise — every cache
+    entry the loader would reuse (own timestamp and all recorded dependency timestamps current) holds exactly the
+    specified parse of its file in the CURRENT library, records a timestamp for every transitive import, and every
+    recorded timestamp is one the file really had (`Inv`, Proofs.lean; `U` is the ghost set of used timestamps). -/
+theorem cache_invariant (W : World) (names : List Name) (files : Name → File) (h : List Op) (fuel : Nat)
+    (hh : OkHistory W fuel names files h) :
+    ∃ U, Inv W (run W fuel h (initState names files)).lib U (run W fuel h (initState names files)) :=
+  hist_inv W names files fuel h hh
+
+/-- A load that RAISES (injected parse exception, an item whose extension clashes, missing import, cycle, missing
+    limit, …) leaves the cache in a state from which every later load still equals the specification on the current
+    files, hence the fresh-process result (the C12-m2 class: nothing half-done may be kept).  What `theory.thy`
+    holds right after the exception is NOT specified. -/
+theorem cache_invariant_after_error (W : World) (names : List Name) (files : Name → File) (h : List Op) (fuel : Nat)
+    (hh : OkHistory W fuel names files h) (n' : Name) (lim' : Limit) (fault : Option Item)
+    (_herr : (exec W fault fuel (.load n' lim') (run W fuel h (initState names files))).1 ≠ none)
+    (n : Name) (lim : Limit) :
+    let s1 := (exec W fault fuel (.load n' lim') (run W fuel h (initState names files))).2
+    let r := exec W none fuel (.load n lim) s1
+    (∃ U, Inv W s1.lib U s1) ∧
+    (r.1 = none → ∀ k, specLoad W s1.lib k n lim ≠ .error .fuel → specLoad W s1.lib k n lim = .ok (r.2.thy.getD [])) := by
+  intro s1 r
+  have hok : OkHistory W fuel names files (h ++ [.load n' lim' fault]) := okHist_snoc_load W fuel h _ _ _ hh n' lim' fault
+  have hrun : run W fuel (h ++ [.load n' lim' fault]) (initState names files) = s1 := run_snoc W fuel h _ _
+  obtain ⟨U, hi⟩ := hist_inv W names files fuel _ hok
+  rw [hrun] at hi
+  refine ⟨⟨U, hi⟩, ?_⟩
+  intro hr k hk
+  have := load_returns_spec W names files (h ++ [.load n' lim' fault]) fuel hok n lim
+  simp only [hrun] at this
+  exact this hr k hk
+
+example :
+    let s := run exWorld 50 exHistory (initState [1, 2, 3] exFiles)
+    -- a load interrupted at item 10 of theory 1, then a normal load
+    (exec exWorld (some 10) 50 (.load 3 .none) s).1 = some .parse
+    ∧ (exec exWorld none 50 (.load 3 .none) (exec exWorld (some 10) 50 (.load 3 .none) s).2).2.thy = some [11, 10] := by decide
 
 /-- Two imports that cannot be combined are reported: whenever the specification says that re-applying the
     items of the imports raises (`unchecked_extend`: "Constant … already exists"), `load_theory` does not return
     normally — after every history, like in a fresh process. -/
-theorem import_clash_reported (W : World) (names : List Name) (files : Name → File) (h : List Op)
-    (hh : ∀ o ∈ h, o.keepsContent) (fuel : Nat) (n : Name) (lim : Limit) (k : Nat)
-    (hs : specLoad W (initState names files).lib k n lim = .error .extend) :
+theorem import_clash_reported (W : World) (names : List Name) (files : Name → File) (h : List Op) (fuel : Nat)
+    (hh : OkHistory W fuel names files h) (n : Name) (lim : Limit) (k : Nat)
+    (hs : specLoad W (run W fuel h (initState names files)).lib k n lim = .error .extend) :
     (exec W none fuel (.load n lim) (run W fuel h (initState names files))).1 ≠ none := by
   intro hr
-  have := load_eq_spec_partial W names files h hh fuel n lim hr k (by rw [hs]; intro h; cases h)
+  have := load_returns_spec W names files h fuel hh n lim hr k (by rw [hs]; intro h; cases h)
   rw [hs] at this
   cases this
 
@@ -154,13 +244,13 @@ example :
   ⟨by rfl, by decide, by decide, by decide⟩
 
 /-- A missing limit is reported: whenever the specification says "limit not found", `load_theory` does
-    not return normally (by `load_eq_spec_partial` a normal return would carry the specified theory). -/
-theorem missing_limit_reported (W : World) (names : List Name) (files : Name → File) (h : List Op)
-    (hh : ∀ o ∈ h, o.keepsContent) (fuel : Nat) (n : Name) (lim : Limit) (k : Nat)
-    (hs : specLoad W (initState names files).lib k n lim = .error .limit) :
+    not return normally (by `load_returns_spec` a normal return would carry the specified theory). -/
+theorem missing_limit_reported (W : World) (names : List Name) (files : Name → File) (h : List Op) (fuel : Nat)
+    (hh : OkHistory W fuel names files h) (n : Name) (lim : Limit) (k : Nat)
+    (hs : specLoad W (run W fuel h (initState names files)).lib k n lim = .error .limit) :
     (exec W none fuel (.load n lim) (run W fuel h (initState names files))).1 ≠ none := by
   intro hr
-  have := load_eq_spec_partial W names files h hh fuel n lim hr k (by rw [hs]; intro h; cases h)
+  have := load_returns_spec W names files h fuel hh n lim hr k (by rw [hs]; intro h; cases h)
   rw [hs] at this
   cases this
 
@@ -170,39 +260,40 @@ example :
         = some .limit
     -- theory.thy is then the complete theory (what limit=None gives), not a prefix cut at an arbitrary place
     ∧ (exec exWorld none 50 (.load 2 (.item 77)) (run exWorld 50 exHistory (initState [1, 2, 3] exFiles))).2.thy
-        = some [10, 11, 20, 21] :=
+        = some [11, 10, 20, 21] :=
   ⟨by rfl, by decide, by decide⟩
 
-/-- An import cycle (anything `check_topological_sort` rejects) is reported by EVERY load, after every
-    history: the metadata is never kept, `theory.thy` is left as it was and nothing is cached. -/
-theorem cycle_reported (W : World) (names : List Name) (files : Name → File) (h : List Op)
-    (hh : ∀ o ∈ h, o.keepsContent) (fuel : Nat) (n : Name) (lim : Limit) (e : Err)
-    (hc : topoCheck (initState names files).lib.imps names = some e) :
+/-- An import cycle (anything `check_topological_sort` rejects in the CURRENT files) is reported by EVERY load, after every
+    allowed history: the metadata is never kept, `theory.thy` is left as it was and nothing is cached. -/
+theorem cycle_reported (W : World) (names : List Name) (files : Name → File) (h : List Op) (fuel : Nat)
+    (hh : OkHistory W (fuel + 2) names files h) (n : Name) (lim : Limit) (e : Err) :
     let s := run W (fuel + 2) h (initState names files)
     let r := exec W none (fuel + 2) (.load n lim) s
+    topoCheck s.lib.imps s.names = some e →
     r.1 = some e ∧ r.2.cache = none ∧ r.2.thy = s.thy := by
-  intro s r
-  have hi : Inv W (initState names files).lib s := run_inv W _ (fuel + 2) h _ hh (init_inv W names files)
+  intro s r hc
+  obtain ⟨U, hi⟩ := hist_inv W names files (fuel + 2) h hh
+  have hi : Inv W s.lib U s := hi
   have hnone : s.cache = none := by
     cases hcs : s.cache with
     | none => rfl
     | some T =>
-      have := (hi.2 T hcs).1
-      change topoCheck (initState names files).lib.imps names = none at this
+      have := (hi.2.1 T hcs).1
+      change topoCheck s.lib.imps s.names = none at this
       rw [hc] at this; cases this
   have hem : ensureMeta s = loadMetadata s := by unfold ensureMeta; simp [hnone]
-  obtain ⟨h1, _, _, _, h5, h6, h7⟩ := loadMetadata_inv W (initState names files).lib hi.1
+  obtain ⟨h1, _, _, _, h5, h6, h7⟩ := loadMetadata_inv W s.lib U hi.1 hi.2.2
   have hres : (loadMetadata s).1 = some e := by
     cases hl : (loadMetadata s).1 with
     | none =>
       have hsome := h6 hl
       obtain ⟨T, hT⟩ := Option.isSome_iff_exists.mp hsome
-      have := (h1.2 T hT).1
-      change topoCheck (initState names files).lib.imps names = none at this
+      have := (h1.2.1 T hT).1
+      change topoCheck s.lib.imps s.names = none at this
       rw [hc] at this; cases this
     | some e' =>
       have := (h7 (by rw [hl]; intro h; cases h)).2
-      change topoCheck (initState names files).lib.imps names = _ at this
+      change topoCheck s.lib.imps s.names = _ at this
       rw [hc, hl] at this
       exact this.symm
   have hcache : (loadMetadata s).2.cache = none := (h7 (by rw [hres]; intro h; cases h)).1
@@ -238,21 +329,21 @@ example :
         (initState [1, 2, 3, 4] cycFiles))).1 = some .cycle := by decide
 
 /-- A changed file is re-read: if, after any history, the timestamp of the file of `n` differs from the one
-    its cache entry was stamped with (os.utime, or an edit that kept imports and items), a successful
+    its cache entry was stamped with (os.utime, or an edit), a successful
     `load_theory_cache(n)` parses the file again (the parse event is in the log) and the entry then carries
     the file's current timestamp and all of its items. -/
-theorem changed_file_reread (W : World) (names : List Name) (files : Name → File) (h : List Op)
-    (hh : ∀ o ∈ h, o.keepsContent) (fuel f : Nat) (n : Name) (e : Entry) :
+theorem changed_file_reread (W : World) (names : List Name) (files : Name → File) (h : List Op) (fuel : Nat)
+    (hh : OkHistory W fuel names files h) (f : Nat) (n : Name) (e : Entry) :
     let s := run W fuel h (initState names files)
     let r := exec W none (f + 1) (.ltc n) s
     s.entry n = some e → e.stamp ≠ some (s.files n).mtime → r.1 = none →
     ∃ e', r.2.entry n = some e' ∧ e'.stamp = some (s.files n).mtime ∧
       e'.content.map (·.1) = (s.files n).items ∧ Event.readFile n ∈ r.2.log ∧
       -- the recorded dependency timestamps name ALL transitive imports (`get_import_order`), not only the direct ones
-      (initState names files).lib.order e.imports = some (e'.deps.map (·.1)) := by
+      s.lib.order e.imports = some (e'.deps.map (·.1)) := by
   intro s r he hch hok
-  have hi : Inv W (initState names files).lib s := run_inv W _ fuel h _ hh (init_inv W names files)
-  exact ltcBody_reread W _ (exec_post W _ none f) n e hi he hch hok
+  obtain ⟨U, hi⟩ := hist_inv W names files fuel h hh
+  exact ltcBody_reread W s.lib U (exec_post W s.lib U none f) n e hi he hch hok
 
 example :
     let s := run exWorld 50 [.load 3 .none none, .touch 1 9] (initState [1, 2, 3] exFiles)
@@ -299,7 +390,7 @@ def siFiles : Name → File := fun n =>
 /-- KNOWN FINDING (stale-imports): `load 2; edit 2.json so that it no longer imports 1; load 2` leaves the
     theory built on theory 1 (`[10, 20]`) although the files now specify `[]` (item 20 does not parse without
     item 10): `load_theory_cache` re-reads the content of a changed file but keeps the imports read by
-    `load_metadata`.  This is why `load_eq_spec` excludes `Op.edit`. -/
+    `load_metadata`.  This is the history class `OkHistory` excludes. -/
 theorem stale_imports_counterexample :
     let s := run siWorld 50 [.load 2 .none none, .edit 2 [] [20] 9] (initState [1, 2] siFiles)
     (exec siWorld none 50 (.load 2 .none) s).1 = none
@@ -307,10 +398,78 @@ theorem stale_imports_counterexample :
     ∧ specLoad siWorld s.lib 5 2 .none = .ok [] :=
   ⟨by decide, by decide, by rfl⟩
 
+/-- this history is exactly what `OkHistory` excludes (a load while the metadata is stale) -/
+example : ¬ OkHistory siWorld 50 [1, 2] siFiles [.load 2 .none none, .edit 2 [] [20] 9, .load 2 .none none] := by
+  unfold OkHistory
+  simp only [okHist]
+  decide
+
 /-- … and `basic.load_metadata()` after the edit repairs it -/
 example :
     let s := run siWorld 50 [.load 2 .none none, .edit 2 [] [20] 9, .reloadMeta] (initState [1, 2] siFiles)
     (exec siWorld none 50 (.load 2 .none) s).2.thy = some [] := by decide
+
+/-! ### several users (`execU`, `stepU`: Model.lean) -/
+
+theorem focus_thy (s : State) (u : Nat) : (s.focus u).thy = s.thy := by
+  unfold State.focus; split <;> rfl
+
+/-- Import resolution for a user: `load_theory(n, limit, username=u)` is the loader run on the library and cache of
+    user `u` ALONE (imports are looked up in `users/<u>/` only — the code has no fall-back to, or shadowing of, the
+    master library), so a normal return carries the specification evaluated on u's own files.
+    PARTIAL: proved for worlds without lazy imports (`lazyOf = none`).  With lazy imports a user's load can run
+    master loads through the `basic.load_theory` calls of imported modules (modelled in `execU`, tied to the
+    implementation by the second-user histories of the harness, not covered by a theorem). -/
+theorem user_resolution_spec_partial (W : World) (hlazy : ∀ n, W.lazyOf n = none) (L : Lib) (U : Used) (s : State)
+    (u : Nat) (hi : Inv W L U (s.focus u)) (f : Nat) (n : Name) (lim : Limit) :
+    let r := execU W none (f + 1) (.load u n lim) s
+    r.1 = none → ∀ k, specLoad W L k n lim ≠ .error .fuel → specLoad W L k n lim = .ok (r.2.thy.getD []) := by
+  intro r hr k hk
+  have heq := execU_load_eq W none hlazy f u n lim s
+  have h1 : r.1 = (exec W none (f + 1) (.load n lim) (s.focus u)).1 := by show (execU W none (f + 1) (.load u n lim) s).1 = _; rw [heq]
+  have h2 : r.2.thy = (exec W none (f + 1) (.load n lim) (s.focus u)).2.thy := by
+    show (execU W none (f + 1) (.load u n lim) s).2.thy = _; rw [heq]; exact focus_thy _ _
+  rw [h2]
+  exact (exec_post W L U none (f + 1) (.load n lim) _ hi).2.2 rfl (by rw [← h1]; exact hr) k hk
+
+/-- master has theories 1 ← 2 with items 10 / 20; user 1 has its own files for the same names: items 110 / 120 -/
+def uState : State :=
+  { initState [1, 2] siFiles with
+    others := fun u => if u = 1 then { names := [1, 2], files := fun n =>
+      if n = 1 then { imports := [], items := [110], mtime := 5 } else { imports := [1], items := [120], mtime := 5 } } else {} }
+
+example :
+    (execU siWorld none 50 (.load 1 2 .none) uState).2.thy = some [110, 120]
+    ∧ (execU siWorld none 50 (.load 0 2 .none) (execU siWorld none 50 (.load 1 2 .none) uState).2).2.thy = some [10, 20]
+    ∧ specLoad siWorld (uState.focus 1).lib 5 2 .none = .ok [110, 120] :=
+  ⟨by decide, by decide, by rfl⟩
+
+/-- Users are isolated as far as FILES go: replacing (or touching) a file of another user `B` changes neither the
+    library nor the cache of the user in focus, nor `theory.thy`; and an edit of a file of the user in focus leaves
+    the stored library and cache of every other user `A` as they are.
+    PARTIAL: that LOADS of user B leave every user A ∉ {B, master} untouched is how `execU` is built (a load focuses
+    on B's component; only master is reached, through module imports) and is tied to the implementation by the
+    second-user histories of the harness; it is not stated as a theorem. -/
+theorem users_isolated_partial (W : World) (fuel : Nat) (s : State) (B : Nat) (n : Name)
+    (imps : List Name) (items : List Item) (t : Nat) :
+    (B ≠ s.user →
+      (stepU W fuel (.edit B n imps items t) s).2.names = s.names ∧ (stepU W fuel (.edit B n imps items t) s).2.files = s.files
+      ∧ (stepU W fuel (.edit B n imps items t) s).2.cache = s.cache ∧ (stepU W fuel (.edit B n imps items t) s).2.thy = s.thy
+      ∧ (stepU W fuel (.touch B n t) s).2.files = s.files ∧ (stepU W fuel (.touch B n t) s).2.cache = s.cache)
+    ∧ (B = s.user → ∀ A, (stepU W fuel (.edit B n imps items t) s).2.others A = s.others A) := by
+  constructor
+  · intro hB
+    have hB' : ¬ s.user = B := fun h => hB h.symm
+    unfold stepU State.focus setFile
+    simp [hB, hB']
+  · intro hB A
+    unfold stepU State.focus setFile
+    simp [hB]
+
+example :
+    (execU siWorld none 50 (.load 1 2 .none) (stepU siWorld 50 (.edit 0 1 [] [11] 9) uState).2).2.thy = some [110, 120]
+    ∧ (execU siWorld none 50 (.load 0 2 .none) (stepU siWorld 50 (.edit 1 1 [] [111] 9) uState).2).2.thy = some [10, 20] :=
+  ⟨by decide, by decide⟩
 
 /-! ### the tables generated from the sources -/
 
